@@ -356,9 +356,10 @@ func (srv *server) registerClient(connect *packets.Connect, client *client) (ses
 			var willDelayInterval, expiryInterval uint32
 			if connect.WillFlag {
 				willMsg = &gmqtt.Message{
-					QoS:     connect.WillQos,
-					Topic:   string(connect.WillTopic),
-					Payload: connect.WillMsg,
+					QoS:      connect.WillQos,
+					Retained: connect.WillRetain,
+					Topic:    string(connect.WillTopic),
+					Payload:  connect.WillMsg,
 				}
 				setWillProperties(connect.WillProperties, willMsg)
 			}
@@ -529,6 +530,14 @@ func (srv *server) sendWillLocked(msg *gmqtt.Message, clientID string) {
 	// the will message is dropped
 	if req.Message == nil {
 		return
+	}
+	if msg.Retained {
+		// [MQTT-3.1.2-16] [MQTT-3.1.2-17]
+		if len(msg.Payload) == 0 {
+			srv.retainedDB.Remove(msg.Topic)
+		} else {
+			srv.retainedDB.AddOrReplace(msg.Copy())
+		}
 	}
 	srv.deliverMessage(clientID, msg, defaultIterateOptions(msg.Topic))
 	if srv.hooks.OnWillPublished != nil {
